@@ -213,9 +213,9 @@ def run(res):
   found = {}
   lines, defs, meta = [], [], []
   base = vlib.seed() * 1000 + 1400
-  nscen = 8 if quick else 50
+  nscen = 8 if quick else 30
   for s in range(nscen):
-    l, d, m = run_one_scenario(res, s, base + s, KINDS[s % len(KINDS)], 1 + s % 3, 3 if quick else 6, found)
+    l, d, m = run_one_scenario(res, s, base + s, KINDS[s % len(KINDS)], 1 + s % 3, 3 if quick else 5, found)
     lines += l
     defs += d
     meta += m
